@@ -11,13 +11,17 @@ pub fn str_witnesses() -> Vec<Vec<u8>> {
         b"a".to_vec(),
         "ü€𝄞".as_bytes().to_vec(),
         b"\x037".to_vec(),
+        b"nul\x00in\x00side".to_vec(),
+        vec![b'x'; 127],
+        vec![b'x'; 128],
         vec![b'x'; 255],
         vec![b'x'; 256],
     ]
 }
 
+/// boundary witnesses incl. the 8-, 16- and 24-bit sign / width boundaries
 pub fn int_witnesses() -> Vec<i32> {
-    vec![0, 1, -1, i32::MIN, i32::MAX, 0x01020304]
+    vec![0, 1, -1, i32::MIN, i32::MAX, 0x01020304, 127, 128, -128, -129, 255, 256, 32767, 32768, -32768, -32769, 65535, 65536, 0x00ff_ffff, -0x0100_0000]
 }
 
 /// Every scalar atom of the public value model (boundary witnesses per kind).
